@@ -7,3 +7,4 @@ import MW.Props.C06
 #print axioms MW.Props.C06.callbacks_leave_batches
 #print axioms MW.Props.C06.expected_immutable
 #print axioms MW.Props.C06.lifecycle_every_world_history
+#print axioms MW.Props.C06.messages_are_the_modelled_ones
